@@ -165,13 +165,16 @@ TAgr ==
             /\ dev' = Note2([dev EXCEPT !.cache = First(@, s1 # seen \/ na # alloy)])
     /\ Logged(Ev.st) /\ Queries(Ev.q)
 
-\* BeginBlock: nothing changes (the code reloads what swaps see from the store when one of its caches is empty)
+\* BeginBlock: nothing changes.  (The code reloads what swaps see from the store when one of its in-memory maps is
+\* empty: after one of the deviations noted above, the view of x/poolmanager falls back to what is stored.)
 TBlock ==
     /\ IsEv("block")
-    /\ LET s1 == AgrOf(Ev.st.seen) IN
+    /\ LET s1 == AgrOf(Ev.st.seen)  na == AlloyOf(Ev.st.alloy) IN
         /\ Chk("block: what swaps see is what they saw or what is stored", s1 = seen \/ s1 = agr)
-        /\ seen' = s1
-        /\ UNCHANGED <<cf, agr, alloy, bal, accr, trk, phase, ep, gh>>
+        /\ Chk("block: an alloyed denomination appeared", DOMAIN na \subseteq DOMAIN alloy)
+        /\ Chk("block: what swaps see changed although it was coherent", (dev.cache = 0 /\ dev.areg = 0) => (s1 = seen /\ na = alloy))
+        /\ seen' = s1 /\ alloy' = na
+        /\ UNCHANGED <<cf, agr, bal, accr, trk, phase, ep, gh>>
     /\ Logged(Ev.st) /\ Queries(Ev.q) /\ View2(Ev.st) /\ NoDev
 
 TAlloy ==
